@@ -2931,9 +2931,18 @@ fn write_reference_immediately(
 /// Compute reverse complement of a sequence
 fn reverse_complement_sequence(seq: &[u8]) -> Vec<u8> {
     use crate::kmer::reverse_complement;
+    // Only A/C/G/T (codes 0-3) are complemented; N and the other IUPAC codes keep
+    // their value and are just reversed, exactly as the decompressor undoes it
+    // (reverse_complement() alone maps every code > 3 to 4 = N and loses them).
     seq.iter()
         .rev()
-        .map(|&base| reverse_complement(base as u64) as u8)
+        .map(|&base| {
+            if base < 4 {
+                reverse_complement(base as u64) as u8
+            } else {
+                base
+            }
+        })
         .collect()
 }
 
